@@ -1,5 +1,7 @@
 import Tally.Generated.Facts
-/-! Tie for C08: the order of operations of the root's `Close` (CAS, close(done), wait for the loop
+/-! Tie for C08: the order of operations of the root's `Close` (CAS; a call that loses it receives from
+`s.closeDone`, i.e. waits for the winning call to return — repair D17; the winner: close(done), the deferred
+`close(s.closeDone)` (runs as the winning call returns, after the reporter's Close), wait for the loop
 goroutine, final pass, purge, Flush, reporter close — the flush comes AFTER the purge since repair D14), of the
 loop's closed check and of a periodic report-and-flush,
 re-checked against the current source. -/
@@ -7,8 +9,9 @@ namespace Tally.Tie.C08
 open Tally
 
 theorem close_order :
-    Facts.scopeCloseOps = ["s.closed.CAS(false, true)", "close(s.done)", "s.wg.Wait()", "s.registry.Report(s.reporter)",
-      "s.registry.CachedReport()", "s.registry.purge()", "s.baseReporter.Flush()", "closer.Close()"] := rfl
+    Facts.scopeCloseOps = ["s.closed.CAS(false, true)", "recv s.closeDone", "close(s.done)", "defer close(s.closeDone)",
+      "s.wg.Wait()", "s.registry.Report(s.reporter)", "s.registry.CachedReport()", "s.registry.purge()",
+      "s.baseReporter.Flush()", "closer.Close()"] := rfl
 theorem close_guards : Facts.scopeCloseGuards = ["!s.closed.CAS(false, true)", "s.root"] := rfl
 theorem loop_checks_closed_first : Facts.reportLoopRunOps = ["s.closed.Load()", "s.reportRegistry()"] := rfl
 theorem report_then_flush :
